@@ -99,7 +99,7 @@ def _rfirst(v, first):
 
 
 @bounded("page-labels-outlines-destinations-on-generated-documents", props=["C17"],
-         bound="quick: 120 documents: page-label number trees (flat, Kids+Limits, nested, direct/indirect nodes; styles D R r A(<=26) a(<=26) none; prefixes incl. UTF-16; St), outline forests (depth <= 3, up to 1500 siblings once), name trees for destinations (flat, Kids+Limits, absent names); thorough: 20000")
+         bound="quick: 120 documents: page-label number trees (flat, Kids+Limits, nested, direct/indirect nodes and arrays; styles D R r A(<=26) a(<=26) none; prefixes incl. UTF-16; St), outline forests (depth <= 3, up to 1500 siblings once), name trees for destinations (flat, Kids+Limits, absent names); thorough: 20000")
 def _(tier, seed):
     import io, random
     from specs.pdfgen import build, Name, Ref
@@ -140,9 +140,10 @@ def _(tier, seed):
             nums += [s0, ind(d)]
         if len(rngs) > 1 and rng.random() < 0.5:
             mid = len(rngs) // 2 * 2
-            tree = {"Kids": [ind({"Nums": nums[:mid], "Limits": [nums[0], nums[mid - 2]]}), ind({"Nums": nums[mid:], "Limits": [nums[mid], nums[-2]]})]}
+            # the arrays themselves (/Nums, /Kids, /Limits) may be indirect objects too
+            tree = {"Kids": ind([ind({"Nums": ind(nums[:mid]), "Limits": ind([nums[0], nums[mid - 2]])}), ind({"Nums": nums[mid:], "Limits": [nums[mid], nums[-2]]})])}
         else:
-            tree = {"Nums": nums}
+            tree = {"Nums": ind(nums)}
         objs[1]["PageLabels"] = ind(tree)
         want_labels = []
         for i in range(npages):
@@ -442,3 +443,34 @@ sc.inline_callees = True
 sc.skip_cross = True
 sc.returns(T.Opaque("items"))
 sc.ens("preorder-with-nesting-levels-and-optional-entries", lambda doc, result: [tuple(x) for x in result] == doc._want)
+
+
+# -- NumberTree.__init__: the node and each of its arrays may be indirect objects - every one of them is taken through dict_value / list_value --------------------
+_dv = stub("pdfminer.pdftypes:dict_value", ["x"]); _dv.result_fn = ("resolved-dict", lambda x: x.f["_target"] if isinstance(x, SObj) and "_target" in x.f else x)
+_lv17 = stub("pdfminer.pdftypes:list_value", ["x"]); _lv17.result_fn = ("resolved-list", lambda x: ("resolved", x))
+
+
+class _NodeObj(T.Sort):
+    def fresh(self, ctx, name):
+        has = {k: ctx.choose([True, False], "has-" + k) for k in ("Nums", "Kids", "Limits")}
+        node = {k: "value-of-" + k for k in has if has[k]}
+        indirect = ctx.choose([False, True], "node-is-indirect")
+        return SObj(None, {"_target": node, "_has": has, "_indirect": indirect}, name) if indirect else SObj(None, {"_target": node, "_has": has, "_indirect": False, "_inline": True}, name)
+    def sample(self, rng):
+        return None
+    def from_model(self, ev, v):
+        return {"has": v.f["_has"], "indirect": v.f["_indirect"]}
+
+
+c = contract("pdfminer.data_structures:NumberTree.__init__", props=["C17"])
+c.param("self", T.Obj("pdfminer.data_structures:NumberTree")).param("obj", _NodeObj())
+c.skip_cross = True
+c.stubs = {"pdfminer.pdftypes:dict_value": _dv, "pdfminer.pdftypes:list_value": _lv17}
+c.inline = True          # callers execute the body; this contract is checked on its own
+c.mod("self.*")
+c.ens("node-through-dict_value-each-present-array-through-list_value-absent-ones-None", lambda self, obj, trace: (
+    trace[0][0].endswith("dict_value") and trace[0][1]["x"] is obj
+    and sorted(t[1]["x"] for t in trace[1:]) == sorted("value-of-" + k for k in obj._has if obj._has[k]) and all(t[0].endswith("list_value") for t in trace[1:])
+    and self.nums == (("resolved", "value-of-Nums") if obj._has["Nums"] else None)
+    and self.kids == (("resolved", "value-of-Kids") if obj._has["Kids"] else None)
+    and self.limits == (("resolved", "value-of-Limits") if obj._has["Limits"] else None)))
